@@ -2,7 +2,7 @@
 # usage: seedkeep.sh <prop id> <src dir> <name> [tier] [extra check ids...]
 # runs seedcheck; if the change is confirmed it is kept as /verif/seeded/<name>/ with the result recorded in meta.json
 id=$1; src=$2; name=$3; tier=${4:-quick}
-out=$(/verif/scripts/seedcheck.sh $id $src $tier 2>&1)
+out=$(/verif/scripts/${SEEDCHECK:-seedcheck.sh} $id $src $tier 2>&1)
 echo "$out" | grep -E "RESULT|violations of kind|\] " | head -8
 res=$(echo "$out" | grep "^RESULT")
 confirmed=$(echo "$res" | sed -n 's/.*confirmed=\([a-z]*\).*/\1/p')
@@ -16,7 +16,7 @@ if [ "$confirmed" = yes ]; then
 import json,sys
 m=json.load(open(sys.argv[1]))
 m["breaks_property"]=sys.argv[3]
-m.setdefault("verif",[]).append({"check": f"./check {sys.argv[3]} {sys.argv[4]}", "detected": sys.argv[5]=="yes", "kinds": sys.argv[6], "confirmed_by": "scripts/seedcheck.sh: patch applies, builds, full suite passes (connectors/rpc cannot build tests on go1.24 either way), demo passes without and fails with the change"})
+m.setdefault("verif",[]).append({"check": f"./check {sys.argv[3]} {sys.argv[4]}", "detected": sys.argv[5]=="yes", "kinds": sys.argv[6], "confirmed_by": "scripts/seedcheck.sh or seedcheck_wt.sh: patch applies, builds, full suite passes (connectors/rpc cannot build tests on go1.24 either way), demo passes without and fails with the change"})
 m["note"]="demonstration files are stored with a .txt suffix so that they are not compiled as part of /verif"
 json.dump(m,open(sys.argv[2],"w"),indent=1)
 PY
